@@ -10,6 +10,7 @@ CHECKS = {
  "C12": ("model_checking", "TLC checks CmdTurnImpl (slot table with gaps, HAS_CMD_TURN flags, the static descending cursor of get_user_command, the bounded serve loop) exhaustively for 'nobody with a turn and a command is skipped, nobody served twice'; TLC-enumerated populations/gaps/arrival patterns/error, tick, connect and single-character extras (CmdTurnGen) run through the real backend() with scripted telnet clients, and every trace is validated against the abstract specification CmdTurn (one per user per cycle, FIFO per user, a poll never sleeps on pending commands).", NOTE, TECH, "DESIGN.md §7 C12"),
  "C14": ("model_checking", "TLC checks OutRingImpl (ring indices modulo the buffer size, the CR LF room test, the contiguous-chunk computation, send results all/partial/EWOULDBLOCK/EINTR/EPIPE) exhaustively for 'the socket stream is a prefix of the accepted stream, ring content = accepted minus sent, no CR without its LF'; TLC-enumerated message lengths around the real 4096-byte buffer x LF patterns x send-result plans x flush points (OutRingGen) run through the real add_message()/flush_message() with a scripted send(); the projection compares byte contents and TLC validates the accounting/ordering protocol of every trace against the abstract specification OutRing (tail-only loss, only when full or dead, write interest whenever unsent bytes remain).", NOTE + "; byte-content comparison (prefix matching of the captured socket stream against the generated messages) is done by the projection in checks/c14.py, which is trusted", TECH, "DESIGN.md §7 C14"),
  "C13": ("model_checking", "The reference telnet decoder (TelnetRef) is a fold over the byte stream; TLC checks exhaustively (all token streams up to 4 tokens x all cut positions) that feeding pieces equals feeding the whole and that no negotiation byte reaches a line. TLC-enumerated token streams x segmentations (strict class), malformed/oversized/8-bit robust-class streams, ASCII-port streams and bursts are delivered through a scripted recv() to the real get_user_data()/copy_chars()/get_user_command(); every trace is validated against the abstract specification Telnet: strict class - delivered commands equal the reference lines in order and nothing is lost; robust class - only bytes the reference met as data may appear, buffer indices stay inside the 2 KiB buffer; ASan/UBSan monitor every execution.", NOTE, TECH + "; sanitizer monitoring for the memory-safety clause", "DESIGN.md §7 C13"),
+ "C09": ("model_checking", "TLC enumerates (BackendGen) short histories of external events - tick before any connection, connect, partial input, EOF / hang-up / reset, reconnect, console lines - with an uncaught error injected into each kind of task (command, process_input, input_to, heart_beat, call_out, reset, clean_up, connect, logon, net_dead, telnet callback) in network and console mode with a working, failing or silent master error_handler; every history runs through the real backend() under ASan/UBSan and every trace is validated by TLC against Backend (process alive at the end, every error reported before the next poll, only the failing object's heart beat switched off) and against CmdTurn (the other users keep being served).", NOTE, TECH + " with enumerated fault sequences; sanitizer monitoring", "DESIGN.md §7 C09"),
 }
 NA = {}
 
